@@ -45,15 +45,16 @@ SCRIPTS = {
     # sessions of equal length asked for their results, an instance started with a partial timeout dictionary that then times out
     "F": [("start", None), ("begin-session", bs({"constants": {"k": 7.0}, "points": {"lk": [[0.0, 5.0], [8.0, 5.0]]}})), ("run-step", None), ("session-results", None), ("stop-instance", None)],
     "G": [("start", None), ("begin-session", bs(None)), ("run-step", None), ("session-results", None), ("flat-session-results", None)],
-    "H": [("start", {"timeout": {"seconds": 5}}), ("begin-session", bs({"constants": {"k": 2.0}})), ("advance", 10), ("sweep", None), ("run-step", None)],
+    "H": [("start", {"timeout": {"seconds": 5}}), ("begin-session", bs({"constants": {"k": 6.0}, "points": {"lk": [[0.0, 4.0], [8.0, 4.0]]}})), ("advance", 10), ("sweep", None), ("run-step", None)],
 }
 
 
-def execute(order, names, n):
-    """order: sequence of script names (one entry per request).  -> {name: [(status, body)]}"""
+def execute(order, names, n, shared=False):
+    """order: sequence of script names (one entry per request).  -> {name: [(status, body)]}
+    shared: the factory registers ONE model object in every bptk object it builds (instead of a fresh model per instance)"""
     clock = srv.VClock().install()
     try:
-        app, client = srv.make_server(srv.make_factory(0.0, 6.0, 1.0))
+        app, client = srv.make_server(srv.make_factory(0.0, 6.0, 1.0, shared_model=shared))
         # a short-lived bystander that the virtual-clock advance will time out
         bystander = srv.start_instance(client, timeout={"seconds": 5})
         pos = {nm: 0 for nm in names}
@@ -114,27 +115,28 @@ def merges(names, n):
 
 
 def _work(arg):
-    names, n, orders = arg
-    solo = {nm: execute([nm] * n, [nm], n)[nm] for nm in names}
+    names, n, orders = arg[:3]
+    shared = len(arg) > 3 and arg[3]
+    solo = {nm: execute([nm] * n, [nm], n, shared)[nm] for nm in names}
     # determinism: a solo replay twice gives the same responses
     viol = []
-    again = execute([names[0]] * n, [names[0]], n)[names[0]]
+    again = execute([names[0]] * n, [names[0]], n, shared)[names[0]]
     if again != solo[names[0]]:
         # the same script on two *fresh servers* of one process answers differently: an instance sees what an instance of an earlier
         # server left behind in process-wide state of the library - it does not behave as if it were the only one
         k = next(i for i, (x, y) in enumerate(zip(again, solo[names[0]])) if x != y)
-        viol.append(("cross-talk/process-wide-state/%s:%s" % (names[0], SCRIPTS[names[0]][k][0]), {"names": list(names), "n": n, "order": [names[0]] * n, "repeat_solo": True},
+        viol.append(("cross-talk/process-wide-state/%s:%s" % (names[0], SCRIPTS[names[0]][k][0]), {"names": list(names), "n": n, "order": [names[0]] * n, "repeat_solo": True, "shared": shared},
                      "script %s replayed alone on a second fresh server returns %r at request #%d, on the first fresh server %r" % (
                          names[0], str(again[k])[:250], k, str(solo[names[0]][k])[:250])))
         return viol, 1
     distinct = set()
     for order in orders:
-        got = execute(order, names, n)
+        got = execute(order, names, n, shared)
         distinct.add(json.dumps(got, sort_keys=True, default=str))
         for nm in names:
             if got[nm] != solo[nm]:
                 k = next(i for i, (x, y) in enumerate(zip(got[nm], solo[nm])) if x != y)
-                viol.append(("cross-talk/%s:%s" % (nm, SCRIPTS[nm][k][0]), {"names": list(names), "n": n, "order": order},
+                viol.append(("cross-talk%s/%s:%s" % ("/shared-model-factory" if shared else "", nm, SCRIPTS[nm][k][0]), {"names": list(names), "n": n, "order": order, "shared": shared},
                              "instance %s request #%d (%s): merged run returned %r, alone it returns %r (other instance: %s)" % (
                                  nm, k, SCRIPTS[nm][k][0], str(got[nm][k])[:300], str(solo[nm][k])[:300], [x for x in names if x != nm])))
                 break
@@ -153,6 +155,11 @@ def run(ctx):
     for names in core.rot(short, ctx.seed):
         for part in core.chunks(list(merges(names, 5)), 8):
             jobs.append((names, 5, part))
+    # the same with a factory that registers one and the same model object in every instance's bptk object
+    for names in core.rot(short + ([("A", "B"), ("C", "E")] if ctx.tier == "quick" else pairs), ctx.seed):
+        nn = 5
+        for part in core.chunks(list(merges(names, nn)), 8):
+            jobs.append((names, nn, part, True))
     if ctx.tier == "thorough":
         for names in (("A", "B", "C"), ("B", "D", "E"), ("F", "G", "H")):
             orders = list(merges(names, 3))
@@ -160,7 +167,7 @@ def run(ctx):
                 jobs.append((names, 3, part))
     res = core.pmap(_work, jobs)
     total = trans = 0
-    for (names, nn, part), (viol, cnt) in zip(jobs, res):
+    for (names, nn, part, *_), (viol, cnt) in zip(jobs, res):
         total += cnt
         trans += cnt * len(names) * nn
         for sig, case, detail in viol:
@@ -171,9 +178,9 @@ def run(ctx):
         "rule": "all merges C(2n, n) of two request scripts of n = %d requests for %d script pairs, of 5 requests for %d more pairs%s; states = merged executions, transitions = requests issued; "
                 "every merged execution is compared per instance with the solo replay" % (n, len(pairs), len(short), " and all merges of three scripts of 3 requests" if ctx.tier == "thorough" else ""),
         "scripts": {k: [x[0] for x in v] for k, v in SCRIPTS.items()},
-    }, assumptions=["instances come from a factory that builds a fresh model and bptk object per call", "interleaving at request granularity (sub-request interleavings: C18)"])
+    }, assumptions=["instances come from a factory that builds a fresh bptk object per call, with a fresh model or with one shared model object registered in each", "interleaving at request granularity (sub-request interleavings: C18)"])
 
 
 def replay(case):
-    viol, _ = _work((tuple(case["names"]), case["n"], [case["order"]]))
+    viol, _ = _work((tuple(case["names"]), case["n"], [case["order"]], bool(case.get("shared"))))
     return viol or None
